@@ -10,6 +10,7 @@ from ..nf import NF, Atom, Undecided, app, atoms_of, lift, nf_equal, single_atom
 from ..values import NONE, Cond, ListV, NoneV, Num, ObjV, SliceV, StrV, TupleV, valkey
 from .common import (
     ABSTRACT_SUMMARIES,
+    both_polarities,
     K,
     N,
     Pdim,
@@ -233,7 +234,7 @@ def _pen_summary(ex, func, args, kwargs, so, node):
 def discover_backtracker(ctx, drv):
     c = []
     for n, r in _calls(ctx, drv):
-        if r.cls is None and len(r.params) == 1 and any(isinstance(x, ast.While) for x in ast.walk(r.node)):
+        if r.cls is None and len(r.params) == 1 and any(isinstance(x, (ast.While, ast.For)) for x in ast.walk(r.node)):
             c.append(r)
     return c[0] if len(c) == 1 else None
 
@@ -658,26 +659,71 @@ def check_backtracker(ctx, bt: FuncInfo):
     seen = set()
     for p in rets:
         loops = main_loop(p, bt.qualname)
-        if len(loops) != 1 or loops[0].kind != "while":
-            ctx.undecided(rule, "backtracker", bt.loc(), "not a single while loop")
+        if len(loops) != 1 or loops[0].kind not in ("while", "for"):
+            ctx.undecided(rule, "backtracker", bt.loc(), "not a single loop")
             return
         lp = loops[0]
         pre = lp.info["pre"]
         ivar = [n for n, v in pre.items() if isinstance(v, Num) and v.shape == ()]
         if len(ivar) != 1:
-            ctx.undecided(rule, "backtracker", bt.loc(), "cannot identify the position variable")
+            ctx.undecided(rule, "backtracker", bt.loc(), "cannot identify the position variable" if lp.kind == "while" else "cannot identify the watermark variable of the descending scan")
             return
         iname = ivar[0]
-        iin = NF.atom(Atom("lc", f"{lp.lid}.{iname}.in"))
-        if "init" not in seen:
-            seen.add("init")
-            ctx.check(nf_equal(pre[iname].nf, lift(N) - 1), rule, "start", bt.loc(lp.node), "backtracking starts at the last sample", found=repr(pre[iname].nf), expected="n - 1")
-            cond = lp.info.get("cond")
-            ctx.check(cond is not None and cond.t[0] == "cmp" and cond.t[1] == "<=0" and nf_equal(cond.t[2], -iin), rule, "condition", bt.loc(lp.node), "while i >= 0", found=repr(cond))
+        pfacts = list(p.facts)
+        if lp.kind == "while":
+            # idiom A: `while i >= 0` with the position as the loop-carried variable; a collective anomaly jumps to its start
+            iin = NF.atom(Atom("lc", f"{lp.lid}.{iname}.in"))
+            if "init" not in seen:
+                seen.add("init")
+                ctx.check(nf_equal(pre[iname].nf, lift(N) - 1), rule, "start", bt.loc(lp.node), "backtracking starts at the last sample", found=repr(pre[iname].nf), expected="n - 1")
+                cond = lp.info.get("cond")
+                ctx.check(cond is not None and cond.t[0] == "cmp" and cond.t[1] == "<=0" and nf_equal(cond.t[2], -iin), rule, "condition", bt.loc(lp.node), "while i >= 0", found=repr(cond))
+            body_i = lp.info["body_env"].get(iname)
+            resume = lambda want: isinstance(body_i, Num) and nf_equal(_strip_int(body_i.nf), want - 1)  # noqa: E731
+            shown_resume = repr(body_i)
+        else:
+            # idiom C: `for i in range(n - 1, -1, -1)` with a watermark w (initially n): positions i >= w are skipped, a
+            # collective anomaly lowers w to its start.  The next position visited is then w - 1 = start - 1; after a
+            # point anomaly or nothing w is unchanged and (i < w) the scan visits i - 1.
+            iin = NF.atom(Atom("lv", lp.lid))
+            win = NF.atom(Atom("lc", f"{lp.lid}.{iname}.in"))
+            rng = lp.info.get("range")
+            if "init" not in seen:
+                seen.add("init")
+                ctx.check(rng is not None and nf_equal(rng[0], lift(N) - 1), rule, "start", bt.loc(lp.node), "backtracking starts at the last sample", found=repr(rng), expected="n - 1")
+                ctx.check(rng is not None and rng[1].as_const() == -1 and rng[2].as_const() == -1, rule, "condition", bt.loc(lp.node), "the scan descends one position at a time down to 0", found=repr(rng), expected="range(n - 1, -1, -1)")
+                d0 = (pre[iname].nf - lift(N)).as_const()
+                ctx.check(d0 is not None and d0 >= 0, rule, "watermark|initial", bt.loc(lp.node), "no position is skipped before the first collective anomaly: the watermark starts at n", found=repr(pre[iname].nf), expected=">= n")
+            body_w = lp.info["body_env"].get(iname)
+            is_skip_fact = lambda c: c.t[0] == "cmp" and c.t[1] == "<=0" and nf_equal(_strip_int(c.t[2]), win - iin)  # noqa: E731
+            skipf = [(c, v) for c, v in both_polarities(pfacts) if is_skip_fact(c)]
+            if not skipf:
+                if "watermark|guard" in seen:
+                    continue
+                seen.add("watermark|guard")
+                ctx.violation(rule, "watermark|guard", bt.loc(lp.node), "a path through the scan does not test the watermark: positions inside an extracted collective anomaly are visited again", found=[repr(c) for c, v in pfacts][:3], expected="if i >= watermark: continue")
+                continue
+            if skipf[0][1]:
+                k = "watermark|skip"
+                if k not in seen:
+                    seen.add(k)
+                    silent = not loop_events(p, lp, "list_append") and isinstance(body_w, Num) and nf_equal(body_w.nf, win)
+                    ctx.check(silent, rule, k, bt.loc(lp.node), "a position at or above the watermark (inside an extracted collective anomaly) records nothing and leaves the watermark alone", found=f"watermark' = {body_w!r}")
+                continue
+            pfacts = [(c, v) for c, v in pfacts if not any(is_skip_fact(c2) for c2, _ in both_polarities([(c, v)]))]
+
+            def resume(want, body_w=body_w, iin=iin, win=win):
+                if not isinstance(body_w, Num):
+                    return False
+                if nf_equal(want, iin):
+                    return nf_equal(body_w.nf, win)  # unchanged watermark: i - 1 < w is visited next
+                return nf_equal(_strip_int(body_w.nf), want)  # watermark lowered to the start: start - 1 is visited next
+
+            shown_resume = f"watermark' = {body_w!r}"
+        p = _with_facts(p, pfacts)
         facts = facts_of_path([(c, v) for c, v in p.facts])
         apps = loop_events(p, lp, "list_append")
         start_i = app("idx", sym("starts"), (("at", iin),))
-        body_i = lp.info["body_env"].get(iname)
         for e in apps:
             tv = e.data["value"]
             if not isinstance(tv, TupleV) or len(tv.items) != 2 or not all(isinstance(x, Num) for x in tv.items):
@@ -705,14 +751,14 @@ def check_backtracker(ctx, bt: FuncInfo):
                 cs, unk = path_cases([(_cond_strip_int(c), v) for c, v in p.facts])
                 exact = all((not satisfiable(cc + [Lin.of(start_i - iin - 1)])) and (not satisfiable(cc + [Lin.of(iin - start_i - 1)])) for cc in cs)
                 ctx.check(exact, rule, k + "|exact", e.loc(), "a point anomaly at i is recorded only when the optimal start of position i is i itself", found=f"branch facts {[repr(c) + '=' + str(v) for c, v in p.facts][-3:]} do not force starts[i] == i", expected="starts[i] == i under the branch condition")
-                ctx.check(isinstance(body_i, Num) and nf_equal(_strip_int(body_i.nf), iin - 1), rule, k + "|resume", e.loc(), "after a point anomaly the scan resumes at i - 1", found=repr(body_i))
+                ctx.check(resume(iin), rule, k + "|resume", e.loc(), "after a point anomaly the scan resumes at i - 1", found=shown_resume)
             else:
                 ctx.check(entails(facts_i, Lin.of(hi_nf - lo_nf - 2)), rule, k + "|not-a-point", e.loc(), "an event recorded as collective has at least 2 samples (length-1 events are point anomalies, which ignore_point_anomalies must be able to omit)", found=f"({lo_nf!r}, {hi_nf!r})", expected="hi - lo >= 2 under the branch condition")
                 ctx.check(nf_equal(lo_nf, start_i), rule, k + "|start", e.loc(), "a collective anomaly starts at the recorded optimal start of position i", found=repr(lo_nf), expected=repr(start_i))
-                ctx.check(isinstance(body_i, Num) and nf_equal(_strip_int(body_i.nf), start_i - 1), rule, k + "|resume", e.loc(), "after a collective anomaly the scan resumes just before its start", found=repr(body_i), expected=repr(start_i - 1))
+                ctx.check(resume(start_i), rule, k + "|resume", e.loc(), "after a collective anomaly the scan resumes just before its start", found=shown_resume, expected=repr(start_i - 1))
         if not apps and "none" not in seen:
             seen.add("none")
-            ctx.check(isinstance(body_i, Num) and nf_equal(_strip_int(body_i.nf), iin - 1), rule, "no-anomaly|resume", bt.loc(lp.node), "without an anomaly at i the scan moves to i - 1", found=repr(body_i))
+            ctx.check(resume(iin), rule, "no-anomaly|resume", bt.loc(lp.node), "without an anomaly at i the scan moves to i - 1", found=shown_resume)
             # completeness: nothing is skipped - the branch without a record is unreachable when position i carries an
             # optimal start 0 <= starts[i] <= i (positions without an anomaly carry NaN, which fails every comparison)
             from ..affine import path_cases, satisfiable
@@ -738,6 +784,15 @@ def check_backtracker(ctx, bt: FuncInfo):
                             allk.setdefault(pos, set()).add("point" if is_pt else "collective")
     ok_order = allk.get(0) == {"collective"} and allk.get(1) == {"point"}
     ctx.check(ok_order, rule, "result-order", bt.loc(), "the helper returns (collective anomalies, point anomalies) in that order", found={k: sorted(v) for k, v in sorted(allk.items())}, expected="{0: collective, 1: point}")
+
+
+def _with_facts(p, facts):
+    """the same path with a filtered fact list (the watermark test of idiom C is accounted for separately)"""
+    import copy
+
+    q = copy.copy(p)
+    q.facts = list(facts)
+    return q
 
 
 def _strip_int(nf):
